@@ -9,7 +9,7 @@
     fillMly_complete_sync  the same for a seed that is itself an occurrence
 
   Hypotheses added to the brief's:
-    `SeedOk r p`   a DATE seed has no BYHOUR/BYMINUTE/BYSECOND (as for the daily / weekly fillers)
+    (gone: `SeedOk r p`, a DATE seed has no BYHOUR/BYMINUTE/BYSECOND -- `make_enum` ignores them there, as `TimeExp` does)
     `MlySup r`     BYMONTHDAY has at most 62 values (the parser's bit set).  BYDAY next to BYMONTHDAY limits through
                    `dow_limit_p`: a plain entry lets every such weekday pass, a numbered one the n-th of the month —
                    e.g. FREQ=MONTHLY;BYMONTHDAY=1;BYDAY=1MO: those 1sts of a month that are Mondays
@@ -57,7 +57,7 @@ theorem fillMly_cases (r : Rule) (p : Inst) (n : Nat) (l : List Inst) (hr : WfRu
 /-- C01, soundness of the monthly filler (no SHIFT, no BYSETPOS): every instant written is an instance of the rule
 anchored at the seed -/
 theorem fillMly_sound (r : Rule) (p : Inst) (n : Nat) (l : List Inst) (hr : WfRule r) (hp : WfInst p)
-    (hs : SeedOk r p) (_hn : n ≤ 64) (hy : 1901 ≤ p.y) (hsup : MlySup r) (hsh : r.shift = 0) (hpos : r.pos = [])
+    (_hn : n ≤ 64) (hy : 1901 ≤ p.y) (hsup : MlySup r) (hsh : r.shift = 0) (hpos : r.pos = [])
     (h : fillMly r p n = some l) : ∀ x ∈ l, MonthlyInst r p x ∧ SetposOk r p x := by
   intro x hx
   refine ⟨?_, Or.inl hpos⟩
@@ -72,14 +72,14 @@ theorem fillMly_sound (r : Rule) (p : Inst) (n : Nat) (l : List Inst) (hr : WfRu
     rcases aLoop_mem (mkFillCtx r p nti) mlyTries _ _ _ (mly_loopHyp r p nti hr hp hsup hy) (mlyFuel nti) q mlyTries {}
       hst.1 x hx with h | ⟨q', r1, r2, r3, _⟩
     · cases h
-    · exact mE_inst r p nti hr hp hs hsup hy q' r1 r2 x r3
+    · exact mE_inst r p nti hr hp hsup hy q' r1 r2 x r3
 
 /-- C01, completeness of the monthly filler (no SHIFT, no BYSETPOS): an instance `x` at or after the seed, not after
 UNTIL and not after 2099 is in the result `l`, or `l` is full (`capOf r n` elements) and all of it comes before `x`.
 Extra hypothesis `MlyFirst`: the rule has an occurrence within the first 336 periods (else the code gives up after
 `MLY_TRIES` = 337 periods without one; see `fillMly_complete_sync` for seeds that are occurrences themselves). -/
 theorem fillMly_complete (r : Rule) (p : Inst) (n : Nat) (l : List Inst) (hr : WfRule r) (hp : WfInst p)
-    (hs : SeedOk r p) (_hn : n ≤ 64) (hy : 1901 ≤ p.y) (hsup : MlySup r) (hsh : r.shift = 0) (hpos : r.pos = [])
+    (_hn : n ≤ 64) (hy : 1901 ≤ p.y) (hsup : MlySup r) (hsh : r.shift = 0) (hpos : r.pos = [])
     (hf : MlyFirst r p) (h : fillMly r p n = some l)
     (x : Inst) (hx : MonthlyInst r p x) (hge : absOf p ≤ absOf x) (hle : ltP r.untl x = false) (hxy : x.y ≤ 2099) :
     x ∈ l ∨ (l.length = capOf r n ∧ ∀ z ∈ l, ltP z x = true) := by
@@ -103,7 +103,7 @@ theorem fillMly_complete (r : Rule) (p : Inst) (n : Nat) (l : List Inst) (hr : W
       have := hst.1.2.2.1
       unfold mlyFuel qIdx; omega
     have hcomp := aLoop_complete (mkFillCtx r p nti) mlyTries _ _ _ (mly_loopHyp r p nti hr hp hsup hy)
-      (mly_targetHyp r p nti hr hp hs hsup hy hf) (by decide) (mlyFuel nti) q mlyTries {} hI hB x hT
+      (mly_targetHyp r p nti hr hp hsup hy hf) (by decide) (mlyFuel nti) q mlyTries {} hI hB x hT
     have hbase := aLoop_base (mkFillCtx r p nti) mlyTries (fun q : Nat × Int => q.1) (mE r p nti)
       (fun q => mlyNext r.mon r.inter 12 q.1 q.2) (mlyFuel nti) q mlyTries {} rfl (Nat.zero_le _)
     rw [← hsim.1, ← hsim.2.1] at hcomp
@@ -123,7 +123,7 @@ theorem fillMly_complete (r : Rule) (p : Inst) (n : Nat) (l : List Inst) (hr : W
 
 /-- … in particular when the seed is itself an occurrence (DTSTART "synchronized with the rule", RFC 5545 3.8.5.3) -/
 theorem fillMly_complete_sync (r : Rule) (p : Inst) (n : Nat) (l : List Inst) (hr : WfRule r) (hp : WfInst p)
-    (hs : SeedOk r p) (hn : n ≤ 64) (hy : 1901 ≤ p.y) (hsup : MlySup r) (hsh : r.shift = 0) (hpos : r.pos = [])
+    (hn : n ≤ 64) (hy : 1901 ≤ p.y) (hsup : MlySup r) (hsh : r.shift = 0) (hpos : r.pos = [])
     (hsync : MonthlyInst r p p) (h : fillMly r p n = some l)
     (x : Inst) (hx : MonthlyInst r p x) (hge : absOf p ≤ absOf x) (hle : ltP r.untl x = false) (hxy : x.y ≤ 2099) :
     x ∈ l ∨ (l.length = capOf r n ∧ ∀ z ∈ l, ltP z x = true) := by
@@ -141,6 +141,6 @@ theorem fillMly_complete_sync (r : Rule) (p : Inst) (n : Nat) (l : List Inst) (h
     · have := hr.inter
       have : 0 < 336 * r.inter := by omega
       omega
-  exact fillMly_complete r p n l hr hp hs hn hy hsup hsh hpos hf h x hx hge hle hxy
+  exact fillMly_complete r p n l hr hp hn hy hsup hsh hpos hf h x hx hge hle hxy
 
 end Echse.Lemmas.RrMlyRfc
